@@ -78,6 +78,12 @@ CHECKS = {
         text="PROVED (rule engine, all inputs): the call gen(**args_dict) in main is dominated by the exists-and-phase-0 guard with nothing in between; gen and gen_file never rebind output_filename, so the path appended to (mode 'a') is the very string the guard tested; get_functions_and_classes adds name_tpl.format(name=name) to __all__ exactly once per input item, in order, and returns one element per item. "
              "BOUNDED only: the written module compiles, __all__ equals the defined template names, symbols parse back to their source interface, --prepend / --imports-from-file, and the CLI leaves an existing file untouched (plain, ./ and ~ spellings). One known finding (SQLAlchemy kinds: __all__ names undefined symbols).",
         note="Out of the bounded domain because they crash on the pinned tree: function and pydantic emit kinds through gen, --emit-and-infer-imports (stated in the evidence)."),
+    "C01": dict(
+        category="other", design_ref="DESIGN.md §5 C01/C08",
+        technique="contract-based deductive verification of the quoting helpers and two lemmas over their contracts (E1 string VCs, z3); run-time round-trip contract over IR(n) for the property itself",
+        text="PROVED (thin lemmas, all strings): quote, unquote and code_quoted meet exact functional contracts; unquote(quote(s)) == s for non-empty unquoted s; quote(quote(s)) == quote(s). "
+             "BOUNDED only — this is where the property itself is decided, and only within the bound: pi(parse(emit(ir, style, flags))) == pi'(ir) on the real emitter/parser over the docstring-representable slice of IR(n) x 3 styles x emit_default_doc x emit_types, plus a ReST word-wrap sweep. Five known-finding classes on the pinned tree (None default, Google/NumPy return type, NumPy without types, negative int without types).",
+        note="No contract within reach of the engine carries the scanners/parsers (_scan_phase_*, _parse_phase_*, extract_default: casefold comparisons, literal_eval, ~600 lines of index arithmetic); the bounded part is a stand-in, not a proof."),
 }
 
 NA_REASON = "check not built yet (work in progress; see DESIGN.md for the plan)"
